@@ -38,6 +38,9 @@ P = {
  "C09": dict(level="proof", tech="struct layout from go/types (encoding/binary sizes, sequential offsets, rom tags), SSA structural rules on the two reflection walkers (induction variable, skip predicate, byte order, Field(i).Addr()), abstract interpretation with exact gated terms of ReadHeader's version logic and of ROM.ReadHeader/WriteHeader/NewROM windows",
    text="Round-trip follows from a partition of the 80 header bytes into fixed-size little-endian fields read and written by walkers that are shown, structurally, to visit the same fields in the same order with the same byte order; offsets and tags are computed from the type, the version table and the zeroing set are decided for all header contents by restricting gated terms to the four cases, and the ROM windows are exact slices. Nothing depends on sampled header contents.",
    note="Trusted base: encoding/binary and reflect behave as documented; go/types sizes for fixed-width integers; absint. HeaderOffset is the value NewROM establishes.", ref="4 C09"),
+ "C17": dict(level="other", tech="abstract interpretation of color15 with fully symbolic inputs: bit provenance for the two pack/unpack compositions, interval analysis of every narrowing conversion / product / sum, gated-term shape of each packed channel (dependence set, clamp condition, both restrictions), term of Luminosity",
+   text="The pack clause is decided for all 2^16 colours and all 2^24 triples at once by bit provenance; absence of lossy narrowing and overflow for all channels in 0..31, multiplicands 0..255 and divisors 1..255 by intervals; the per-channel result is shown to be the term min(31, floor(ch*m/d)) of its own channel by restricting the gated merge to both sides of the clamp. Consequences such as monotonicity in the ratio are implied by that term and are not separately checked.",
+   note="Trusted: go/ssa, absint; divisor != 0 is the property's precondition; the shape clause relies on the narrowing clause (term keys identify values modulo their width).", ref="4 C17"),
 }
 reasons_pending = "no check is registered for this property at this commit (machinery not built yet); see DESIGN.md section 4 for the planned static rules"
 
